@@ -88,7 +88,7 @@ class C01(Prop):
                    'tolerance: c=16 sqrt(n) eps kappa with eps the coarsest of float32 (eigh/inv are float32), inv dtype, gradient dtype and, for the inverse method, the factor dtype (damping is added in it); '
                    'kappa from the float64 system (product form for eigen, sum of the two factor condition numbers for inverse)']
     examples = {'quick': 500, 'thorough': 2000}
-    shards = {'quick': 4, 'thorough': 16}
+    shards = {'quick': 8, 'thorough': 16}
     required_labels = {'quick': ['nontrivial=True', 'method=eigen', 'method=inverse', 'has_conv=True', 'clip=active', 'lowprec_long_run=True', 'reused_second_order=True', 'dist=True', 'reloaded=True'],
                        'thorough': ['nontrivial=True', 'method=eigen', 'method=inverse', 'has_conv=True', 'clip=active', 'lowprec_long_run=True', 'reused_second_order=True', 'dist=True', 'reloaded=True']}
 
